@@ -122,6 +122,10 @@ def run(chk):
                     how = "fold + {:02x}"
                     if not folds:
                         ok, src_ok, how = hex_table_encoding(prog, cf, buf_local)
+                    if not (ok and src_ok):
+                        ok2, src2, how2 = hex_per_byte(prog, cf, buf_local, tok)
+                        if ok2 and src2:
+                            ok, src_ok, how = ok2, src2, how2
                     chk.ob("R2.token", cf.path, "Session.token is the hex encoding of all of those bytes", ok and src_ok, f"token = {panics.short_desc(tok)} ({how})")
                     exp = describe(prog, cf, rv["ops"][rv["fields"].index("expiry")])
                     chk.ob("R2.expiry", cf.path, "expiry = now + lifetime", desc_contains(exp, lambda y: y[0] == "bin" and y[1].startswith("Add")) and desc_contains(exp, lambda y: y[0] == "param" and y[2] == "lifetime") and
@@ -381,6 +385,64 @@ def whole_password_and_expiry(chk, prog):
             chk.ob("R7.expiry_from_now", fn, "expiry = (seconds since the epoch, now) + lifetime", ok,
                    f"expiry = {panics.short_desc(d)}: a refresh that builds on the old expiry lets a token outlive now + lifetime", where=b.where(blk_i))
     chk.floor("Session expiry assignments", m, 2)
+
+
+def hex_per_byte(prog, b, buf_local, tok):
+    """R-BYTECLASS form: a loop over the whole buffer in which, for every value of the byte, exactly the two hex digits of that byte
+    (one case throughout) are appended to the token — by two pushes of computed digits or by one `{:02x}` / `{:02X}` placeholder."""
+    from .. import byteset
+    from ..fmt import _deref_chain
+    best = (False, False, "no per-byte hex writer found")
+    for nb, t in b.calls_to(r"Iterator>?::next$|Iterator::next$"):
+        recv = core.describe(prog, b, t["args"][0])
+        if [c for c in core.desc_calls(recv) if core.re.search(r"::(skip|take|step_by|filter|rev|skip_while|take_while|chain|zip)$", c[1])]:
+            continue
+        whole = False
+        for c in core.desc_calls(recv):
+            if core.re.search(r"into_iter$|::iter$", c[1]) and len(c) > 3:
+                a0 = b.term(c[3])["args"][0]
+                if _deref_chain(b, core.op_local(a0)) == buf_local or core.op_local(a0) == buf_local:
+                    whole = True
+        if not whole or t.get("dest") is None:
+            continue
+        var = ("field", core.describe(prog, b, t["dest"]["l"]), 0)
+        fl = byteset.ByteFlow(prog, b, var)
+        writes = []
+        for blk, ct in b.calls():
+            name = ct.get("resolved") or ct.get("callee") or ""
+            if not core.re.search(r"string::String::(push|push_str)$|String as std::fmt::Write>::write_(str|fmt|char)$|fmt::Write::write_fmt$|AddAssign<&str>>::add_assign$", name):
+                continue
+            if not b.dominates(nb, blk) or fl.mask_at(blk) == 0:
+                continue
+            if nb not in b.reachable(b.succs(blk)):
+                continue            # after the loop
+            writes.append((blk, ct, name))
+        writes.sort(key=lambda x: sum(1 for y in writes if b.dominates(y[0], x[0])))
+        full = all(fl.mask_at(blk) == byteset.ALL for blk, ct, name in writes)
+        same_out = all(byteset.strip_conv(core.describe(prog, b, ct["args"][0])) == byteset.strip_conv(tok) for blk, ct, name in writes)
+        if not writes or not full or not same_out:
+            best = (False, whole, f"{len(writes)} write(s) in the loop; all bytes reach them: {full}; they append to the token: {same_out}")
+            continue
+        for digits in ("0123456789abcdef", "0123456789ABCDEF"):
+            if len(writes) == 2 and all(n.endswith("String::push") or n.endswith("write_char") for _, _, n in writes):
+                a_hi, a_lo = (core.describe(prog, b, ct["args"][1]) for _, ct, _ in writes)
+                if all(fl.eval(a_hi, v) == ord(digits[v >> 4]) and fl.eval(a_lo, v) == ord(digits[v & 15]) for v in range(256)):
+                    return True, True, "loop over the buffer pushing the two hex digits of each byte"
+        if len(writes) == 1:
+            blk, ct, name = writes[0]
+            arg = core.describe(prog, b, ct["args"][-1])
+            fs = [c[3] for c in core.desc_calls(arg) if "fmt::Arguments" in c[1] and len(c) > 3]
+            parts = fmt.format_parts(b, fs[0]) if fs else None
+            specs = fmt.format_specs(b, fs[0]) if fs else None
+            if parts and specs and len(parts) == 1 and parts[0][0] == "arg" and len(specs) == 1 and parts[0][1] is not None:
+                sp = specs[0]
+                if fl.is_alias_desc(core.describe(prog, b, parts[0][1])) and core.re.search(r"new_(lower|upper)_hex$", parts[0][2] or "") and sp["width"] == 2 and \
+                        sp["flags"] is not None and sp["flags"] & fmt.ZERO_PAD_FLAG and not sp["flags"] & fmt.ALTERNATE_FLAG:
+                    return True, True, "loop over the buffer writing each byte as {:02x}"
+            best = (False, whole, f"one write per byte, but not a lone {{:02x}} placeholder: {parts} {specs}")
+        else:
+            best = (False, whole, f"{len(writes)} writes per byte that are not the two hex digits")
+    return best
 
 
 def hex_table_encoding(prog, b, buf_local):
